@@ -63,16 +63,16 @@ Inductive cpc :=
 | SFullD (v w r : N)               (*            read_position.load(Relaxed) again *)
 | SInsert (v : N)                  (* used_chunk_list.insert(v): swap(true, Relaxed) *)
 | SPushLoadWp (v : N)              (* safely_overflowing push: write_position.load(Acquire) *)
-| SPushLoadRp (v w : N)            (*                          read_position.load(Relaxed) *)
+| SPushLoadRp (v w : N)            (*                          read_position.load(Acquire) *)
 | SPushStore (v w r : N)           (*                          write_position.store(w + 1, Release) *)
 | SPushCas (r : N)                 (*   full: read_position.compare_exchange(r, r + 1, AcqRel, Relaxed) *)
 | SEvictRemove (x : N)             (* used_chunk_list.remove(evicted x) *)
 (* Receiver::receive *)
 | RCtrCheck                        (* *borrow_counter >= max_borrowed_samples *)
 | RCtrExceeded                     (* fail!(.., self.borrow_counter(channel_id), ..): the error message reads it again *)
-| RPopLoadRp                       (* safely_overflowing pop: read_position.load(Relaxed) *)
+| RPopLoadRp                       (* safely_overflowing pop: read_position.load(Acquire) *)
 | RPopLoadWp (r : N)               (*                         write_position.load(Acquire); empty? *)
-| RPopCas (r : N)                  (*                         read_position.compare_exchange(r, r + 1, Relaxed, Acquire) *)
+| RPopCas (r : N)                  (*                         read_position.compare_exchange(r, r + 1, Release, Acquire) *)
 | RPopRecheck (r : N)              (*   lost against an eviction: write_position.load(Acquire); empty? *)
 | RCtrIncr (v : N)                 (* *borrow_counter += 1 *)
 (* Receiver::release of held offset number i (= v) *)
@@ -199,7 +199,7 @@ Definition sender_step (g : cgst) (l : clst) : option (cgst * clst * list ev) :=
     Some (g_used g (insN v (used g)) prev, at_pc l (SPushLoadWp v),
           [EAcc 24 B_USED v KSwap Relaxed Relaxed (bool_code prev) 1 true])
   | SPushLoadWp v => Some (g, at_pc l (SPushLoadRp v (sub_wp g)), [ld 25 B_SWP Acquire (sub_wp g)])
-  | SPushLoadRp v w => Some (g, at_pc l (SPushStore v w (sub_rp g)), [ld 26 B_SRP Relaxed (sub_rp g)])
+  | SPushLoadRp v w => Some (g, at_pc l (SPushStore v w (sub_rp g)), [ld 26 B_SRP Acquire (sub_rp g)])
   | SPushStore v w r =>
     let e := EAcc 27 B_SWP 0 KStore Release Release 0 (w + 1) true in
     let g' := g_sub g (sub g ++ [v]) (sub_rp g) (sent g ++ [v]) (taken g) in
@@ -244,7 +244,7 @@ Definition receiver_step (g : cgst) (l : clst) : option (cgst * clst * list ev) 
     else Some (g, at_pc l RPopLoadRp, [e])
   | RCtrExceeded =>
     Some (g, at_pc l Idle, [EAcc 46 B_CTR 0 KCell NotAtomic NotAtomic 0 0 true; ERet RET_EXCEEDS_BORROW])
-  | RPopLoadRp => Some (g, at_pc l (RPopLoadWp (sub_rp g)), [ld 41 B_SRP Relaxed (sub_rp g)])
+  | RPopLoadRp => Some (g, at_pc l (RPopLoadWp (sub_rp g)), [ld 41 B_SRP Acquire (sub_rp g)])
   | RPopLoadWp r =>
     let e := ld 42 B_SWP Acquire (sub_wp g) in
     if N.eqb r (sub_wp g) then Some (g, at_pc l Idle, [e; ERet 0]) else Some (g, at_pc l (RPopCas r), [e])
@@ -255,9 +255,9 @@ Definition receiver_step (g : cgst) (l : clst) : option (cgst * clst * list ev) 
          | v :: s' =>
            Some (g_sub g s' (r + 1) (sent g) (taken g ++ [(v, true)]),
                  set_l l (prog l) (RCtrIncr v) (free l) (held l ++ [v]),
-                 [EAcc 43 B_SRP 0 KCas Relaxed Acquire r (r + 1) true])
+                 [EAcc 43 B_SRP 0 KCas Release Acquire r (r + 1) true])
          end
-    else Some (g, at_pc l (RPopRecheck (sub_rp g)), [EAcc 43 B_SRP 0 KCas Relaxed Acquire (sub_rp g) (r + 1) false])
+    else Some (g, at_pc l (RPopRecheck (sub_rp g)), [EAcc 43 B_SRP 0 KCas Release Acquire (sub_rp g) (r + 1) false])
   | RPopRecheck r =>
     let e := ld 44 B_SWP Acquire (sub_wp g) in
     if N.eqb r (sub_wp g) then Some (g, at_pc l Idle, [e; ERet 0]) else Some (g, at_pc l (RPopCas r), [e])
